@@ -4,7 +4,7 @@ import Gen.WsGen
 /-!
 # C11 — model of `WebSocket::send`, `WebSocket::receive` and the server handshake (src/WebSocket.cpp)
 
-Transcribed from the code (after the repairs 732c352, 71ac374, 7971835, d2a7e85, 4463042, d352fb1, c7d7110, d882f64, 81c34a7):
+Transcribed from the code (after the repairs 732c352, 71ac374, 7971835, d2a7e85, 4463042, d352fb1, c7d7110, d882f64, 81c34a7, bd7f91d, 10948e4, 3e00d94):
 
 * `Rng` — `Random::getLong/get` (xoshiro256**, src/util.cpp), because the client role draws its mask
   keys from `_random`;
@@ -259,11 +259,12 @@ def recvLoop : Nat → Conn → List UInt8 → Bool → List UInt8 × Conn
         -- continuation, text, binary: `msg.append(buffer); partial = !fin;`
         if fin then (msg ++ buffer, c) else recvLoop fuel c (msg ++ buffer) true
       else if opcode = 8 then
+        -- close: the status code and the reason text; whatever had been accumulated is dropped
         if buffer.length ≥ 2 then
           let code := (buffer.getD 0 0).toNat <<< 8 ||| (buffer.getD 1 0).toNat
           (buffer.drop 2, { c with closed := true, code := code })
-        else (msg, { c with closed := true })
-      else
+        else ([], { c with closed := true })
+      else if opcode = 9 || opcode = 10 then
         let c := if opcode = 9 then
             match sendFrame c.isClient c.rng 10 buffer with
             | some (bytes, rng) => { c with out := c.out ++ bytes, rng := rng }
@@ -271,6 +272,9 @@ def recvLoop : Nat → Conn → List UInt8 → Bool → List UInt8 × Conn
           else c
         -- `if (fin && (opcode < 8 || !partial)) haveMsg = true;`
         if fin && (opcode < 8 || !partialMsg) then (msg, c) else recvLoop fuel c msg partialMsg
+      else
+        -- `default:` reserved opcode: the connection is failed, nothing is delivered
+        ([], { c with closed := true })
 
 /-- `receive()` -/
 def receive (c : Conn) : List UInt8 × Conn := recvLoop (c.inp.length + 1) c [] false
